@@ -14,6 +14,10 @@ package assert
 //@ method (*withAssertionFailure).Unwrap
 //@   props C07 C10 C14
 //@   ensures result == self.cause
+//@ method (*withAssertionFailure).SafeFormatError
+//@   props C09
+//@   requires p != nil
+//@   ensures result == self.cause
 
 //@ func WithAssertionFailure
 //@   props C10 C07
